@@ -74,6 +74,12 @@ pub fn balance(u: &mut U, t: &Address, who: &Address) -> i128 {
 pub fn set_probe_fail(u: &mut U, t: &Tok, fail: bool) {
     if t.kind == TokKind::Probe {
         let t = t.clone();
-        u.setup(move |env| ProbeTokenClient::new(env, &t.addr).set_fail(&fail));
+        // refusals alternate between a trap and one of the token's own contract error codes
+        let kind = (u.calls % 2) as u32;
+        u.setup(move |env| {
+            let c = ProbeTokenClient::new(env, &t.addr);
+            c.set_fail(&fail);
+            c.set_fail_kind(&kind);
+        });
     }
 }
